@@ -588,7 +588,14 @@ class Simulation:
         # If verb is not defined, use verbosity of simulation.
         kwargs['verb'] = kwargs.get('verb', self.verb)
 
-        return io.save(fname, **kwargs)
+        # Make sure the transient attribute never outlives this call (io.save
+        # can raise before it reaches self.to_dict, e.g., if another member
+        # cannot be serialized).
+        try:
+            return io.save(fname, **kwargs)
+        finally:
+            if hasattr(self, '_what_to_file'):
+                delattr(self, '_what_to_file')
 
     @classmethod
     def from_file(cls, fname, name='simulation', **kwargs):
